@@ -55,6 +55,18 @@ def run(ctx: Ctx, rep: Report) -> None:
 
     # ------------------------------------------------------------ R5
     check_swallow(ctx, rep, err_base)
+    from .common import check_not_quietly_caught
+
+    status2 = [c for c in ctx.r.subclasses(err_base, direct=True) if _ident(ctx, c) == 2]
+    others = [c for c in ctx.r.subclasses(err_base) if c not in status2] + [err_base]
+    check_not_quietly_caught(ctx, rep, "C08-R5", others, "an agent error other than noSuchName", allowed=status2)
+
+
+def _ident(ctx: Ctx, cls: ClassInfo):
+    try:
+        return ctx.r.class_const(cls, "IDENTIFIER")
+    except NotConstant:
+        return None
 
 
 def check_table(ctx: Ctx, rep: Report, err_base: ClassInfo, construct_fn: FuncInfo) -> None:
@@ -295,6 +307,12 @@ def check_conversion(ctx: Ctx, rep: Report, err_base: ClassInfo) -> None:
                 body = ast.Module(body=list(node.body), type_ignores=[])
                 forced = forces_pdu(ctx, fn, body)
                 allowed = fn.name == "multiwalk"
+                # a message that is refused whatever it says (no path from the try block or its handler reaches a normal
+                # return: the unauthenticated-message branch of the USM) has no agent error to hide
+                fcfg = ctx.cfg(fn)
+                tnode = fcfg.node_of(node) or next((fcfg.node_of(st) for st in node.body if fcfg.node_of(st) is not None), None)
+                if tnode is not None and fcfg.exit.id not in fcfg.reachable(tnode):
+                    allowed = True
                 rep.check(
                     not forced or allowed,
                     "C08-R5",
